@@ -33,9 +33,13 @@ type recWriter struct {
 	chunks [][]byte // copies taken inside Write
 	kept   [][]byte // the slices handed to Write
 	next   io.Writer
+	gate   func() // controlled schedules: the writer goroutine parks here, inside Write
 }
 
 func (w *recWriter) Write(b []byte) (int, error) {
+	if w.gate != nil {
+		w.gate()
+	}
 	w.mu.Lock()
 	w.chunks = append(w.chunks, append([]byte(nil), b...))
 	w.kept = append(w.kept, b)
